@@ -290,15 +290,20 @@ __CPROVER_ensures(RES_IS(CO_ERR_NONE, CO_ERR_SDO_ABORT) || __CPROVER_return_valu
 __CPROVER_ensures((DB_INSEQ() && __CPROVER_old(SRV.Blk.Len) > 0 && !DB_LAST() && DB_SEQ() != CO_SDO_BUF_SEG) ==>
     (__CPROVER_return_value == CO_ERR_SDO_SILENT && SRV.Blk.State == BLK_DOWNLOAD && SRV.Blk.SegCnt == DB_SEQ() && G_WRITE_N == __CPROVER_old(G_WRITE_N)))
 /* in sequence, end of block (127th or last segment): acknowledge it, wait for next block or end */
+/* (a block that is not the last one is written to the object at its end: acknowledged only if the object accepted it, C02) */
 __CPROVER_ensures((DB_INSEQ() && __CPROVER_old(SRV.Blk.Len) > 0 && (DB_LAST() || DB_SEQ() == CO_SDO_BUF_SEG)) ==>
-    (__CPROVER_return_value == CO_ERR_NONE && FD(0) == 0xA2 && FD(1) == DB_SEQ() && FD(2) == CO_SDO_BUF_SEG && FD(3) == 0 && DATA4_ZERO() &&
-     SRV.Blk.State == BLK_DNWAIT && SRV.Blk.SegCnt == 0))
+    ((DB_LAST() || G_WR_ERR == CO_ERR_NONE)
+       ? (__CPROVER_return_value == CO_ERR_NONE && FD(0) == 0xA2 && FD(1) == DB_SEQ() && FD(2) == CO_SDO_BUF_SEG && FD(3) == 0 && DATA4_ZERO() &&
+          SRV.Blk.State == BLK_DNWAIT && SRV.Blk.SegCnt == 0)
+       : (__CPROVER_return_value == CO_ERR_SDO_ABORT && IS_ABORT_FRAME(CO_SDO_ERR_TOS) && SDO_IDLE_BUF())))
 /* more data than announced: 0607 0012h */
 __CPROVER_ensures((DB_INSEQ() && __CPROVER_old(SRV.Blk.Len) == 0) ==> (__CPROVER_return_value == CO_ERR_SDO_ABORT && IS_ABORT_FRAME(CO_SDO_ERR_LEN_HIGH) && SDO_IDLE_BUF()))
 /* out of sequence: nothing is buffered; at the end of the block the last good segment is acknowledged */
 __CPROVER_ensures((!DB_INSEQ() && !DB_LAST() && DB_SEQ() != CO_SDO_BUF_SEG) ==> (__CPROVER_return_value == CO_ERR_SDO_SILENT && SRV.Blk.State == BLK_DOWNLOAD))
 __CPROVER_ensures((!DB_INSEQ() && (DB_LAST() || DB_SEQ() == CO_SDO_BUF_SEG)) ==>
-    (__CPROVER_return_value == CO_ERR_NONE && FD(0) == 0xA2 && FD(1) == (__CPROVER_old(SRV.Blk.SegCnt) & 0x7F) && FD(2) == CO_SDO_BUF_SEG))
+    ((__CPROVER_old(SRV.Buf.Num) == 0 || G_WR_ERR == CO_ERR_NONE)
+       ? (__CPROVER_return_value == CO_ERR_NONE && FD(0) == 0xA2 && FD(1) == (__CPROVER_old(SRV.Blk.SegCnt) & 0x7F) && FD(2) == CO_SDO_BUF_SEG)
+       : (__CPROVER_return_value == CO_ERR_SDO_ABORT && IS_ABORT_FRAME(CO_SDO_ERR_TOS) && SDO_IDLE_BUF())))
 __CPROVER_ensures(__CPROVER_return_value == CO_ERR_SDO_SILENT ==> FRM_DATA_UNCHANGED())
 __CPROVER_ensures(WF_SDO_ALL() && OTHER_SRV_UNCHANGED() && G_TX_N == __CPROVER_old(G_TX_N))
 __CPROVER_assigns(SDO_FRAME_COMMON);
@@ -308,6 +313,8 @@ __CPROVER_requires(SDO_REQ(srv) && SRV.Blk.State == BLK_DNWAIT && (OBJ_REQ_CMD()
 __CPROVER_ensures(RES_IS(CO_ERR_NONE, CO_ERR_SDO_ABORT))
 /* confirmed: A1h, transfer closed */
 __CPROVER_ensures(__CPROVER_return_value == CO_ERR_NONE ==> (FD(0) == 0xA1 && FD(1) == 0 && FD(2) == 0 && FD(3) == 0 && DATA4_ZERO() && SDO_IDLE_BUF()))
+/* confirmed only if the object accepted the last bytes (C02) */
+__CPROVER_ensures((__CPROVER_return_value == CO_ERR_NONE && G_WRITE_N != __CPROVER_old(G_WRITE_N)) ==> G_WR_ERR == CO_ERR_NONE)
 __CPROVER_ensures(__CPROVER_return_value == CO_ERR_SDO_ABORT ==> (FD(0) == 0x80 && SRV.Obj == NULL && SRV.Blk.State == BLK_IDLE))
 __CPROVER_ensures(AT_MOST_ONE(G_WRITE_N))
 __CPROVER_ensures(WF_SDO_ALL() && OTHER_SRV_UNCHANGED() && G_TX_N == __CPROVER_old(G_TX_N))
